@@ -1,6 +1,7 @@
 import SdcModel.Reports
 import SdcModel.Proofs.Reports
 import SdcModel.Proofs.SendOrder
+import SdcModel.Proofs.SendComplete
 import SdcModel.Generated.WriterProg
 /-!
 # C04 — reports are complete, truthful and delivered in version order (property theorems)
@@ -133,6 +134,31 @@ theorem subscriber_view_ordered (c₀ c : Cfg) (ho : ∀ l, c₀.owner l = none)
 theorem sent_versions_committed (c₀ c : Cfg) (ho : ∀ l, c₀.owner l = none) (hl : c₀.log = [])
     (hp : ∀ i, WellLocked (c₀.thr i).prog) (hr : Reach c₀ c) : ∀ v ∈ c.log, v ≤ c.ver :=
   (good_reach (good_init c₀ ho hl hp) hr).bound
+
+/-- ... and none is skipped: when every writer program sends after each version write inside the same critical section
+    (`Complete`), then under ANY interleaving, once all writers have finished, every version committed since the start has been
+    handed to the subscription managers -/
+theorem every_commit_reported (c₀ c : Cfg) (ho : ∀ l, c₀.owner l = none) (hl : c₀.log = [])
+    (hp : ∀ i, WellLocked (c₀.thr i).prog) (hc : ∀ i, Complete (c₀.thr i).prog) (hr : Reach c₀ c)
+    (hdone : ∀ i, (c.thr i).prog = []) : ∀ v, c₀.ver < v → v ≤ c.ver → v ∈ c.log := by
+  intro v h1 h2
+  have k := cov_reach (good_init c₀ ho hl hp) (cov_init c₀ hc) hr
+  rcases k.cov v h1 h2 with h | ⟨_, i, _, _, h3⟩
+  · exact h
+  · rw [hdone i] at h3; simp [cs] at h3
+
+/-- together with `delivery_ordered`: the handed-over versions are exactly the committed ones, in order (a gap-free run) -/
+theorem reports_gap_free (c₀ c : Cfg) (ho : ∀ l, c₀.owner l = none) (hl : c₀.log = [])
+    (hp : ∀ i, WellLocked (c₀.thr i).prog) (hc : ∀ i, Complete (c₀.thr i).prog) (hr : Reach c₀ c)
+    (hdone : ∀ i, (c.thr i).prog = []) :
+    c.log.Pairwise (· ≤ ·) ∧ (∀ v ∈ c.log, v ≤ c.ver) ∧ (∀ v, c₀.ver < v → v ≤ c.ver → v ∈ c.log) :=
+  ⟨delivery_ordered c₀ c ho hl hp hr, sent_versions_committed c₀ c ho hl hp hr,
+   every_commit_reported c₀ c ho hl hp hc hr hdone⟩
+
+/-- the traced writer programs send after every version write -/
+theorem generated_writers_complete : Complete Generated.writerSync ∧ Complete Generated.writerAsync := by decide
+
+example : ¬ Complete [.acq 0, .acq 1, .incVer, .rel 1, .rel 0] := by decide
 
 /-- the writer programs traced from the real commit path (sync and async subscription managers) are well-locked -/
 theorem generated_writers_wellLocked :
